@@ -302,8 +302,9 @@ class MarkdownRenderer(BaseRenderer):
     ) -> Iterable[str]:
         indentation = " " * token.indentation
         yield indentation + token.delimiter + token.info_string
+        # (an empty code block has no content lines at all)
         yield from self.prefix_lines(
-            token.content[:-1].split("\n"), indentation
+            token.content[:-1].split("\n") if token.content else [], indentation
         )
         yield indentation + token.delimiter
 
